@@ -1,3 +1,4 @@
 pub mod lossless;
 pub mod fmt;
 pub mod eval;
+pub mod trace;
